@@ -35,6 +35,7 @@ func runC05(c *Ctx) {
 	c05TransportGoroutines(c)
 	c05TransportBlocking(c)
 	c05CloseCancelsAll(c)
+	rootOnce(c)
 }
 
 // ------------------------------------------------------------------------------------------------
